@@ -35,6 +35,9 @@ func (m *Multi) ClearLoaders() {
 // Open will open the file passed by trying all loaders in succession.
 func (m *Multi) Open(name string) (io.ReadCloser, error) {
 	for _, loader := range m.loaders {
+		if !loader.Exists(name) {
+			continue // (Open of a file-system loader succeeds on a directory, which is not a template)
+		}
 		if f, err := loader.Open(name); err == nil {
 			return f, nil
 		}
